@@ -13,7 +13,8 @@ Python (openpectus/aggregator):
 
 In-memory state = the engine's `EngineData` in `_engine_data_map` (absent when not registered).  The database is modelled
 as row lists with exactly the queries used:
-  recentEngine = the RecentEngines row of this engine id (unique): none = no row, some x = row with run_id = x
+  recentEngine = the RecentEngines row of this engine id (unique): none = no row, some x = row with run_id = x;
+                 recentEngineState = its system_state column (none = "")
   plotLogs     = PlotLogs.run_id, insertion order           recentRuns = RecentRuns.run_id, insertion order
   values       = PlotLogEntryValues rows as (index of the PlotLogs row they hang on, tick_time), insertion order
 `restart` = graceful aggregator restart: `Aggregator.shutdown()` (stores every registered engine as recent engine),
@@ -25,7 +26,10 @@ on the real repositories on every run; the theorems of C28 hold for every `Cfg`.
 
 Abstractions: one engine id; `register` = accepted RegisterEngineMsg followed by the UodInfoMsg the engine always sends
 next (one reading "X", data_log_interval_seconds = 0); a tags message carries one value of tag "X" with an integer
-tick time; run log, method, contributors, error log are not modelled; database writes succeed.  Run ids are naturals.
+tick time and optionally, at the same tick time, a value of the tag "System State" (0 = Stopped, 1 = Running,
+2 = Paused) — the engine's state as the aggregator sees it lags or leads the run messages, so every combination of
+state value and run message order is a history; "System State" is not a reading, so it has no plot-log entry; run log,
+method, contributors, error log are not modelled; database writes succeed.  Run ids are naturals.
 Core Lean only.
 -/
 namespace OPM.Reconnect
@@ -34,11 +38,14 @@ structure Mem where
   run : Option Nat := none             -- run_data.run_id            (has_run() = run.isSome)
   lastPersisted : Option Nat := none   -- run_data.latest_persisted_tick_time
   tagTime : Option Nat := none         -- tags_info["X"].tick_time   (none = tag not seen since registration)
+  sysState : Option Nat := none        -- tags_info["System State"].value (none = not seen since registration)
+  sysTime : Option Nat := none         -- tags_info["System State"].tick_time
 deriving Repr, DecidableEq
 
 structure State where
   mem : Option Mem := none
   recentEngine : Option (Option Nat) := none
+  recentEngineState : Option Nat := none
   plotLogs : List Nat := []
   values : List (Nat × Nat) := []
   recentRuns : List Nat := []
@@ -50,7 +57,8 @@ inductive Op where
   | restart
   | start (runId : Nat)                       -- RunStartedMsg
   | stop (runId : Nat)                        -- RunStoppedMsg
-  | tags (msgRun : Option Nat) (t : Nat)      -- TagsUpdatedMsg(run_id = msgRun, tags = [X @ t])
+  | tags (msgRun : Option Nat) (t : Nat) (st : Option Nat)
+      -- TagsUpdatedMsg(run_id = msgRun, tags = [X @ t] or [X @ t, System State = st @ t])
 deriving Repr, DecidableEq
 
 inductive Reply where
@@ -74,8 +82,10 @@ def createPlotLog (c : Cfg) (s : State) (r : Nat) : State :=
 def storeRecentRun (c : Cfg) (s : State) (r : Nat) : State :=
   if c.recentGuarded && s.recentRuns.contains r then s else { s with recentRuns := s.recentRuns ++ [r] }
 
-/-- `store_recent_engine(engine_data)`: upsert of the row; run_id = the active run or None -/
-def storeRecentEngine (s : State) (m : Mem) : State := { s with recentEngine := some m.run }
+/-- `store_recent_engine(engine_data)`: upsert of the row; run_id = the active run or None — whatever the last
+System State value received from the engine is; that value only goes into the system_state column -/
+def storeRecentEngine (s : State) (m : Mem) : State :=
+  { s with recentEngine := some m.run, recentEngineState := m.sysState }
 
 /-- `_try_restore_reconnected_engine_data` on a fresh `EngineData` -/
 def restored (s : State) : Mem :=
@@ -95,19 +105,34 @@ def valueRows (s : State) (r t : Nat) : List (Nat × Nat) :=
   | some i => [(i, t)]
   | none => []
 
-/-- `_persist_tag_values` (the tag X of `m` is at tick time `t`) -/
+/-- `max(tag.tick_time for tag in tags_info)` over the tags seen since registration (X is always among them here) -/
+def latestTime (m : Mem) (t : Nat) : Nat :=
+  match m.sysTime with
+  | some u => max t u
+  | none => t
+
+/-- `_persist_tag_values` (the tag X of `m` is at tick time `t`): when the newest tick time of any tag exceeds the last
+persisted one, the tags newer than the last persisted time are written with that newest tick time; only X has a
+plot-log entry. -/
 def persist (s : State) (m : Mem) (t : Nat) : State :=
   match m.run with
   | none => { s with mem := some m }                             -- no run: nothing stored
   | some r =>
-    if thresholdExceeded m.lastPersisted t then
-      { s with mem := some { m with lastPersisted := some t }, values := s.values ++ valueRows s r t }
+    if thresholdExceeded m.lastPersisted (latestTime m t) then
+      { s with mem := some { m with lastPersisted := some (latestTime m t) },
+               values := s.values ++ (if thresholdExceeded m.lastPersisted t then valueRows s r (latestTime m t) else []) }
     else { s with mem := some m }
 
-/-- `tag_values_changed` for one value of tag X at tick time `t` -/
-def tagsChanged (s : State) (m : Mem) (msgRun : Option Nat) (t : Nat) : State :=
+/-- `tags_info.upsert` of the message's tags -/
+def upsertTags (m : Mem) (t : Nat) (st : Option Nat) : Mem :=
+  match st with
+  | none => { m with tagTime := some t }
+  | some v => { m with tagTime := some t, sysState := some v, sysTime := some t }
+
+/-- `tag_values_changed` for one value of tag X (and optionally of System State) at tick time `t` -/
+def tagsChanged (s : State) (m : Mem) (msgRun : Option Nat) (t : Nat) (st : Option Nat) : State :=
   if (m.run.isNone && msgRun.isSome) || (m.run.isSome && msgRun.isNone) then s   -- "Skipping tag update message"
-  else persist s { m with tagTime := some t } t                  -- tags_info.upsert, then _persist_tag_values
+  else persist s (upsertTags m t st) t                           -- tags_info.upsert, then _persist_tag_values
 
 def step (c : Cfg) (s : State) : Op → State × Reply
   | .register =>
@@ -140,10 +165,10 @@ def step (c : Cfg) (s : State) : Op → State × Reply
       | none => (s, .ok)                                           -- "No engine run_data available on run_stopped"
       | some q =>                                                  -- matching and mismatching id: store, then reset_run
         ({ storeRecentRun c s q with mem := some { m with run := none, lastPersisted := none } }, .ok)
-  | .tags msgRun t =>
+  | .tags msgRun t st =>
     match s.mem with
     | none => (s, .notRegistered)
-    | some m => (tagsChanged s m msgRun t, .ok)
+    | some m => (tagsChanged s m msgRun t st, .ok)
 
 def run (c : Cfg) (s : State) (ops : List Op) : State :=
   ops.foldl (fun s op => (step c s op).1) s
